@@ -20,6 +20,7 @@ import (
 	"os/exec"
 	"path/filepath"
 	"strings"
+	"syscall"
 	"testing/iotest"
 	"time"
 
@@ -293,6 +294,9 @@ func runC19(c *core.Ctx) {
 			c19Explicit(c, sp.kind, i, kt, encs, pubStr)
 			// re-use of one Key object for several loads must equal fresh loads
 			c19Reuse(c, sp.kind, i, encs)
+			if i == 0 {
+				c19OneShotPath(c, sp.kind, kt, defScheme, encs, pubStr)
+			}
 			if len(encs) > 0 && c.Shard == kn%c.NShards {
 				c.Sample("key", map[string]any{"kind": sp.kind, "encodings": len(encs), "expected_keyid": wantID})
 			}
@@ -426,6 +430,80 @@ func c19Explicit(c *core.Ctx, kind string, i int, kt string, encs []encoding, pu
 					c.Violation("explicit scheme / hash-algorithm list not reflected in the loaded key or its id", id, detail)
 				}
 			}
+		}
+	}
+}
+
+// c19OneShotPath: the key is loaded from a path that can be read only once - a named pipe that a
+// writer fills one time (`-k <(...)`, /dev/stdin, a secret served through a pipe). The load has to
+// come back, with the same key as from a file.
+func c19OneShotPath(c *core.Ctx, kind, kt, defScheme string, encs []encoding, pubStr string) {
+	for ei, enc := range encs {
+		for loader := 0; loader < 2; loader++ {
+			id := fmt.Sprintf("one-shot-path/%s/%s/%s", kind, enc.name, loaderNames[loader])
+			if !c.Want(id) {
+				continue
+			}
+			fifo := filepath.Join(c.WorkDir, fmt.Sprintf("key-%d-%d.fifo", ei, loader))
+			os.Remove(fifo)
+			if syscall.Mkfifo(fifo, 0600) != nil {
+				continue
+			}
+			go func() {
+				if f, err := os.OpenFile(fifo, os.O_WRONLY, 0); err == nil {
+					f.Write([]byte(enc.pem))
+					f.Close()
+				}
+			}()
+			var k intoto.Key
+			var err error
+			done := make(chan struct{})
+			c.Begin(id)
+			go func() {
+				defer close(done)
+				defer func() {
+					if r := recover(); r != nil {
+						err = fmt.Errorf("panic: %v", r)
+					}
+				}()
+				if loader == 0 {
+					err = k.LoadKeyDefaults(fifo)
+				} else {
+					err = k.LoadKey(fifo, defScheme, []string{"sha256", "sha512"})
+				}
+			}()
+			stuck := false
+			select {
+			case <-done:
+			case <-time.After(5 * time.Second):
+				stuck = true
+				// let the reader go: a writer that opens and closes the pipe ends its open / read
+				for try := 0; try < 50; try++ {
+					if f, oerr := os.OpenFile(fifo, os.O_WRONLY|syscall.O_NONBLOCK, 0); oerr == nil {
+						f.Close()
+					}
+					select {
+					case <-done:
+						try = 50
+					case <-time.After(100 * time.Millisecond):
+					}
+				}
+			}
+			c.End(id)
+			c.Eval(1)
+			detail := map[string]any{"kind": kind, "encoding": enc.name, "loader": loaderNames[loader], "error": errStr(err)}
+			c.Class("one-shot-path", kind, enc.name, loader)
+			switch {
+			case stuck:
+				c.Violation("loading a key from a named pipe that is written once does not return (the path is read a second time)", id, detail)
+			case err != nil:
+				c.Violation("supported PEM form refused when it is read from a named pipe: "+core.MsgClass(err.Error()), id, detail)
+			case k.KeyID != expectedKeyID(kt, defScheme, []string{"sha256", "sha512"}, pubStr):
+				c.Violation("key loaded from a named pipe has another identifier than the same key loaded from a file", id, detail)
+			default:
+				c.Obs("keys_loaded_from_a_one_shot_path", 1)
+			}
+			os.Remove(fifo)
 		}
 	}
 }
@@ -633,7 +711,7 @@ func init() {
 	core.Register(&core.Property{
 		ID:    "C19",
 		Level: "exploration",
-		Rule: "freshly generated keys per run (quick: 2 RSA-2048, ECDSA P-224/256x2/384/521, 3 Ed25519; thorough: more, plus RSA-3072) x every PEM encoding each supports (PKCS#8, PKCS#1, SEC1, PKIX, self-signed and CA-issued certificate) x 4 loaders (the reader-based ones fed whole, byte by byte, in halves and in 100-byte pieces) x 8 decorations (plain, surrounding whitespace, leading explanatory text as openssl writes it, CRLF, trailing garbage PEM block, trailing text, trailing PEM block with another valid public key / another key's certificate: the first block is the key): type, default scheme, public-half string, key id (recomputed independently as SHA-256 of the reference canonical description), presence of private half / certificate, equal ids across the forms of one pair and different ids for different keys; sign with the private-loaded key, verify with public/certificate-loaded keys and with crypto/*; public-only keys must not sign; explicit scheme and hash lists, including the absent and the empty list (matching => reflected in id; scheme of another key type => error, and the very next load of the same file - nothing in between - gives the usual identifier); re-use of one Key object for two loads must equal a fresh load; before every load an earlier default-loaded key object is modified in place by its owner (later loads must not notice); SVIDDetails.InTotoKey on generated SVID-like pairs (helper built inside the repository module through a build overlay); negatives (empty, text, truncated DER/base64, random DER under 5 labels, encrypted PKCS#8 label, CSR, DSA-like, EC PARAMETERS block without a key, DH/DSA PARAMETERS blocks, integer sequences, a signed revocation list, binary) through all loaders. " +
+		Rule: "freshly generated keys per run (quick: 2 RSA-2048, ECDSA P-224/256x2/384/521, 3 Ed25519; thorough: more, plus RSA-3072) x every PEM encoding each supports (PKCS#8, PKCS#1, SEC1, PKIX, self-signed and CA-issued certificate) x 4 loaders (the reader-based ones fed whole, byte by byte, in halves and in 100-byte pieces) x 8 decorations (plain, surrounding whitespace, leading explanatory text as openssl writes it, CRLF, trailing garbage PEM block, trailing text, trailing PEM block with another valid public key / another key's certificate: the first block is the key): type, default scheme, public-half string, key id (recomputed independently as SHA-256 of the reference canonical description), presence of private half / certificate, equal ids across the forms of one pair and different ids for different keys; sign with the private-loaded key, verify with public/certificate-loaded keys and with crypto/*; public-only keys must not sign; explicit scheme and hash lists, including the absent and the empty list (matching => reflected in id; scheme of another key type => error, and the very next load of the same file - nothing in between - gives the usual identifier); re-use of one Key object for two loads must equal a fresh load; the first key of each kind is also loaded (LoadKeyDefaults, LoadKey) from a named pipe that is written once; before every load an earlier default-loaded key object is modified in place by its owner (later loads must not notice); SVIDDetails.InTotoKey on generated SVID-like pairs (helper built inside the repository module through a build overlay); negatives (empty, text, truncated DER/base64, random DER under 5 labels, encrypted PKCS#8 label, CSR, DSA-like, EC PARAMETERS block without a key, DH/DSA PARAMETERS blocks, integer sequences, a signed revocation list, binary) through all loaders. " +
 			"non-trivial = a supported encoding parsed or a distinct negative class; distinct = (key kind, encoding, loader, decoration) etc.",
 		Assumptions: []string{"keys come from crypto/rand, so they differ per run; every input of a violation is saved in the replay file", "PEM input with trailing data after the first block may be accepted or refused (not judged), but never yields a wrong key", "PEM labels that contradict the DER content are not judged"},
 		Workers:     func(string) int { return 16 },
